@@ -14,8 +14,9 @@ CONSTANTS
   CapPending = TRUE
   MaxHist = 7
   WithdrawOnExpiry = TRUE
+  KeepLaterDeadline = FALSE
   EraseOnLookup = FALSE
-INVARIANTS C01_Reads C02_StoreWindow C03_Derived C05_Clean C05_Once
+INVARIANTS C01_Reads C02_StoreWindow C03_Derived C03_ArrivalWrites C05_Clean C05_Once
 VIEW View
 CONSTRAINT Bound
 CHECK_DEADLOCK FALSE
